@@ -234,6 +234,17 @@ where
     ///
     /// assert_eq!(qwt.len(), 8);
     /// ```
+    /// The bit that decides the branch taken at `level`: a bit of the symbol itself for the
+    /// plain tree (symbols may be wider than 32 bits), a bit of its code `repr` otherwise.
+    #[inline(always)]
+    fn bit_at(symbol: T, repr: u32, symbol_len: usize, level: usize) -> bool {
+        if COMPRESSED {
+            ((repr >> (symbol_len - level - 1)) & 1) == 1
+        } else {
+            ((symbol >> (symbol_len - level - 1)).as_() & 1) == 1
+        }
+    }
+
     #[must_use]
     pub fn len(&self) -> usize {
         self.n
@@ -324,7 +335,8 @@ where
     #[inline(always)]
     unsafe fn get_unchecked(&self, i: usize) -> Self::Item {
         let mut cur_i = i;
-        let mut result: u32 = 0;
+        let mut result: u32 = 0; // code read so far (compressed tree)
+        let mut result_t = T::zero(); // symbol read so far (plain tree)
 
         let mut shift = 0;
 
@@ -334,7 +346,11 @@ where
             }
 
             let symbol = self.bvs[level].get_unchecked(cur_i);
-            result = (result << 1) | symbol as u32;
+            if COMPRESSED {
+                result = (result << 1) | symbol as u32;
+            } else {
+                result_t = (result_t << 1) | (symbol as usize).as_();
+            }
 
             let tmp = self.bvs[level].rank1_unchecked(cur_i);
 
@@ -353,7 +369,7 @@ where
 
             T::from(self.codes_decode.as_ref().unwrap()[shift][idx].1).unwrap()
         } else {
-            T::from(result).unwrap()
+            result_t
         }
     }
 }
@@ -397,12 +413,12 @@ where
             symbol_len = code.len as usize;
             repr = code.content;
         } else {
-            repr = symbol.as_() as u32;
+            repr = 0; // unused: bits are taken from the symbol itself
             symbol_len = self.n_levels;
         }
 
         for level in 0..symbol_len {
-            let bit = ((repr >> (symbol_len - level - 1)) & 1) == 1;
+            let bit = Self::bit_at(symbol, repr, symbol_len, level);
 
             let offset = self.bvs[level].n_zeros();
 
@@ -449,7 +465,7 @@ where
             symbol_len = code.len as usize;
             repr = code.content;
         } else {
-            repr = symbol.as_() as u32;
+            repr = 0; // unused: bits are taken from the symbol itself
             symbol_len = self.n_levels;
         }
         let mut b = 0;
@@ -460,7 +476,7 @@ where
         for level in 0..symbol_len {
             path_off.push(b);
 
-            let bit = ((repr >> (symbol_len - level - 1)) & 1) == 1;
+            let bit = Self::bit_at(symbol, repr, symbol_len, level);
 
             let rank_b = if bit {
                 self.bvs[level].rank1(b)
@@ -477,7 +493,7 @@ where
         for level in (0..symbol_len).rev() {
             b = path_off[level];
             let rank_b = rank_path_off[level];
-            let bit = ((repr >> (symbol_len - level - 1)) & 1) == 1;
+            let bit = Self::bit_at(symbol, repr, symbol_len, level);
 
             let k = rank_b.checked_add(result)?;
             result = if bit {
